@@ -1340,11 +1340,12 @@ def proximal_l1(space, lam=1, g=None):
             denom /= self.sigma * lam
             denom.ufuncs.maximum(1, out=denom)
 
-            # out = (x - g) / denom
-            diff.ufuncs.divide(denom, out=out)
+            # denom = (x - g) / denom; `out` must not be written before the
+            # last use of `x` since they may be aliased
+            diff.ufuncs.divide(denom, out=denom)
 
             # out = x - ...
-            out.lincomb(1, x, -1, out)
+            out.lincomb(1, x, -1, denom)
 
     return ProximalL1
 
@@ -1438,12 +1439,15 @@ def proximal_l1_l2(space, lam=1, g=None):
             denom /= self.sigma * lam
             denom.ufuncs.maximum(1, out=denom)
 
-            # out = (x - g) / denom
-            for out_i, diff_i in zip(out, diff):
-                diff_i.divide(denom, out=out_i)
+            # quot = (x - g) / denom; for aliased `x` and `out`, `diff` is a
+            # temporary and `out` must not be written before the last use
+            # of `x`
+            quot = diff if x is out else out
+            for quot_i, diff_i in zip(quot, diff):
+                diff_i.divide(denom, out=quot_i)
 
             # out = x - ...
-            out.lincomb(1, x, -1, out)
+            out.lincomb(1, x, -1, quot)
 
     return ProximalL1L2
 
